@@ -371,4 +371,96 @@ def run(facts, rep, events, model):
                     dup.append(t.get("ln"))
     n += 1
     rep.check(not dup, "D5", "store::flock::Flock", "fd-not-duplicated", "the lock descriptor is duplicated at %s" % dup, detail="lock_fd is never try_clone'd / dup'ed")
+    n += d6_close_on_exec(facts, rep)
+    return n
+
+
+# ---- D6: descriptors do not leak into child processes ------------------------------------------------
+# "once the handle is dropped (normally, ... or by process death) the directory can be opened again": a flock belongs to the
+# open file description, so a descriptor inherited by a child process the host spawns keeps the directory locked after the
+# owner died.  std opens everything with O_CLOEXEC; the rule is about RAW descriptor-creating calls: none in crate nomt, or a
+# constant flags operand that contains O_CLOEXEC.
+O_CLOEXEC = 0o2000000
+F_DUPFD = 0
+RAW_FD_MAKERS = {
+    # name -> index of the flags argument (None: the call cannot carry O_CLOEXEC at all)
+    "open": 1, "open64": 1, "openat": 2, "openat64": 2, "openat2": None, "creat": None, "creat64": None,
+    "dup": None, "dup2": None, "dup3": 2, "pipe": None, "pipe2": 1, "socket": 1, "socketpair": 1, "accept": None, "accept4": 3,
+    "memfd_create": 1, "eventfd": 1, "epoll_create": None, "epoll_create1": 0, "inotify_init": None, "inotify_init1": 0,
+    "signalfd": 2, "timerfd_create": 1, "mkstemp": None, "mkostemp": 1,
+}
+
+
+def d6_close_on_exec(facts, rep):
+    n = 0
+    seen = 0
+    for body in facts.bodies.values():
+        if body.crate != "nomt" or "::tests::" in body.id:
+            continue
+        for b, t in body.calls():
+            c = t.get("callee") or ""
+            if not c.startswith("libc::"):
+                continue
+            name = c.rsplit("::", 1)[-1]
+            short = body.id.split("::", 1)[1]
+            if name == "fcntl":
+                seen += 1
+                if len(t["args"]) >= 2:
+                    cmd = const_int(body, t["args"][1])
+                    cmd = int(cmd) if cmd is not None else None
+                    n += 1
+                    rep.check(cmd is None or cmd != F_DUPFD, "D6", short, "fcntl(F_DUPFD)", "fcntl(F_DUPFD) at %s duplicates a descriptor without close-on-exec: a child process would inherit it (and with the lock descriptor, the directory lock)" % t.get("ln"), site=t.get("ln"), detail="fcntl command %s" % cmd)
+                continue
+            if name not in RAW_FD_MAKERS:
+                continue
+            seen += 1
+            idx = RAW_FD_MAKERS[name]
+            n += 1
+            flags = const_int(body, t["args"][idx]) if idx is not None and idx < len(t["args"]) else None
+            flags = int(flags) if flags is not None else None
+            ok = flags is not None and (flags & O_CLOEXEC) != 0
+            rep.check(ok, "D6", short, "raw-fd|%s" % name, "libc::%s at %s creates a descriptor without O_CLOEXEC (flags %s): a child process spawned by the host inherits it; if it is (or may be) a database or lock descriptor, the directory stays locked or written after the owner is gone" % (name, t.get("ln"), "not constant" if flags is None and idx is not None else (oct(flags) if flags is not None else "cannot be given")), site=t.get("ln"), detail="flags %s contain O_CLOEXEC" % (oct(flags) if flags is not None else "?"))
+    n += 1
+    rep.ok("D6", "crate nomt", "raw-descriptor-makers", detail="%d raw libc descriptor-related call(s) inspected (fcntl / open / dup ..); every other descriptor comes from std, which sets O_CLOEXEC" % seen)
+    return n
+
+
+# ---- D7: no background writer of a sync outlives the call that started it ---------------------------
+# "once the handle is dropped ... all background writers of the old handle have finished".  The commit API is synchronous:
+# every task a sync spawns (the value-tree update, the WAL / hash-table writeout, the rollback-log pruning) must have been
+# joined when `Sync::sync` returns - on its ERROR exits as well, because a failed commit is exactly when the caller drops the
+# handle, and dropping it releases the directory lock (D3 only drains the I/O pool).  Rule: for every call in Sync::sync
+# after which a spawned task is still pending (summary of the happens-before model, rules/syncmodel.py), every path from that
+# call to ANY return of Sync::sync passes a call that joins the task.  Unwinding (a panic) is not covered.
+
+
+def d7_no_writer_outlives_sync(rep, ctx):
+    m = ctx.model
+    R = ctx.R
+    n = 0
+    short = R.id.split("::", 1)[1]
+    cleanup = {b for b in range(R.n) if R.is_cleanup(b)}
+    rets = set(R.return_blocks())
+    starters = 0
+    for ed in m.edges(R):
+        if ed.kind not in ("sync", "closure") or not ed.target:
+            continue
+        pend = set()
+        for it in m.summary(ed.target):
+            for p in it.pend:
+                if p[0] in ("task", "detached"):
+                    pend.add(p)
+        for p in sorted(pend, key=repr):
+            starters += 1
+            n += 1
+            ds = m.dischargers(R, p)
+            reach = R.reachable_flags(R.succ(ed.bb), set(ds) | cleanup)
+            esc = sorted(reach & rets)
+            tname = ed.target.split("::", 1)[1]
+            if p[0] == "detached":
+                rep.check(False, "D7", short, "detached|%s" % tname, "%s (called at %s) hands work to a thread without a completion handle: it can outlive the sync and the handle" % (tname, ed.ln), site=ed.ln)
+                continue
+            joins = [R.term(d).get("ln") for d in ds]
+            rep.check(bool(ds) and not esc, "D7", short, "joined-on-every-exit|%s" % tname, "the task started by %s (called at %s) is not joined on every path to a return of Sync::sync: an error exit in between (%s) returns to the caller while the task may still be writing - the caller can drop the handle and release the directory lock with a writer alive" % (tname, ed.ln, "no join at all" if not ds else "joined only at %s" % joins), site=ed.ln, detail="task of %s joined at %s on every path to every return" % (tname, joins))
+    rep.floor("D7 task-starting calls in Sync::sync", starters, 2)
     return n
